@@ -36,7 +36,7 @@ pub const KINDS: &[&str] = &[
     "template_asm", "wif", "privkey_hex", "privkey_bytes", "pubkey_hex", "pubkey_bytes", "xprv", "xpub", "xprv_path", "xpub_path", "xprv_seed", "address", "pubkey_hash", "sig_der", "sig_der_hex",
     "sig_compact", "sighash_sig", "ecies_with_key", "ecies_no_key", "aes128cbc_key", "aes128cbc_iv", "aes128cbc_ct", "aes256cbc_key", "aes256cbc_ct", "aes128ctr_key", "aes128ctr_iv", "aes256ctr_key",
     "aes256ctr_iv", "aes_ctr_ct", "digest_verify", "digest_sign", "digest_recover", "json_txin", "json_txout", "json_script", "json_pubkey", "json_address", "bsm_sig_compact", "sighash_flag", "pubkey_decompress", "pubkey_hex_compress", "json_hash", "json_kdf", "mnemonic", "template_match",
-    "json_interpreter", "json_state", "json_scriptbit", "json_opcode", "json_sighash", "json_chainparams",
+    "json_interpreter", "json_state", "json_scriptbit", "json_opcode", "json_sighash", "json_chainparams", "script_coinbase_bytes", "xpub_seed",
 ];
 
 fn is_text_kind(k: &str) -> bool {
@@ -97,6 +97,8 @@ fn consume(kind: &str, input: &[u8]) -> &'static str {
         "xprv_path" => r(ExtendedPrivateKey::from_seed(&[7u8; 32]).and_then(|x| x.derive_from_path(&text()))),
         "xpub_path" => r(ExtendedPublicKey::from_seed(&[7u8; 32]).and_then(|x| x.derive_from_path(&text()))),
         "xprv_seed" => r(ExtendedPrivateKey::from_seed(input)),
+        "xpub_seed" => r(ExtendedPublicKey::from_seed(input)),
+        "script_coinbase_bytes" => r(Script::from_coinbase_bytes(input)),
         "address" => r(P2PKHAddress::from_string(&text())),
         "pubkey_hash" => r(P2PKHAddress::from_pubkey_hash(input)),
         "sig_der" => r(Signature::from_der(input)),
@@ -522,9 +524,16 @@ impl ArtefactMedium {
                 }
                 (s.into_bytes(), vec![])
             }
-            "xprv_seed" => {
+            "xprv_seed" | "xpub_seed" => {
                 let n = *rng.pick(&[16usize, 32, 64, 1, 0, 100]);
                 (rng.bytes(n), vec![])
+            }
+            "script_coinbase_bytes" => {
+                // block height push + arbitrary miner bytes, as the first input of a coinbase transaction carries them
+                let n = rng.range(0, 100) as usize;
+                let mut b = vec![0x03, rng.below(256) as u8, rng.below(256) as u8, rng.below(16) as u8];
+                b.extend(rng.bytes(n));
+                (b, vec![0])
             }
             "address" | "json_address" => {
                 let a = P2PKHAddress::from_pubkey(&rand_key(rng).to_public_key().unwrap()).unwrap();
